@@ -27,7 +27,7 @@ SCRIPT = (4, 120, 16, 1500)   # scheduled scripts: cheap per case, fewer cases
 CHECKS = {
     "C01": seq(["TestC01"], fuzz={"FuzzC01Body": 240}),
     "C02": seq(["TestC02Seq", "TestC02Race", "TestC02Contend"], per_test={"TestC02Race": SCRIPT, "TestC02Contend": (4, 25, 16, 600)}),
-    "C03": seq(["TestC03"], qchecks=150, tchecks=3000, qshards=8),
+    "C03": seq(["TestC03", "TestC03Interfere"], qchecks=150, tchecks=3000, qshards=8, per_test={"TestC03Interfere": (4, 1500, 16, 40000)}),
     "C04": seq(["TestC04Clock", "TestC04Bucket", "TestC04Reopen", "TestC04Race"], per_test={"TestC04Race": (4, 120, 16, 3000), "TestC04Clock": (2, 3000, 8, 200000), "TestC04Reopen": (4, 40, 16, 1500)}),
     "C05": seq(["TestC05"]),
     "C06": seq(["TestC06"]),
